@@ -234,7 +234,7 @@ VERUS = {
                  desc='RawTable::insert and RawTable::insert_in_slot on extracted text against the contracts of find_insert_slot, reserve and record_item_insert_at: the slot handed to insert_in_slot is an EMPTY/DELETED bucket of the table as it is AFTER any reserve, an EMPTY bucket is consumed only while growth is left, mirror invariant and item count maintained',
                  paired={}),
     'grow': dict(props=['C13', 'C08', 'C12'], tier='quick',
-                 desc='reserve_rehash_inner, RawTable::reserve, RawTable::try_reserve and RawTableInner::with_capacity on extracted text against the contracts of rehash_in_place, resize_inner and fallible_with_capacity (the hint::unreachable_unchecked() calls are proved dead): success gives room and loses nothing, tombstones are reclaimed in place exactly when len+additional <= capacity/2, otherwise growth to at least max(len+additional, capacity+1), errors only in fallible mode with nothing changed, unrepresentable requests reported',
+                 desc='reserve_rehash_inner, RawTable::reserve, RawTable::try_reserve and RawTableInner::with_capacity on extracted text against the contracts of rehash_in_place, resize_inner and fallible_with_capacity (the hint::unreachable_unchecked() calls are proved dead): success gives room and loses nothing, tombstones are reclaimed in place exactly when len+additional <= capacity/2, otherwise growth to at least max(len+additional, capacity+1), errors only in fallible mode with nothing changed, unrepresentable requests reported; plus the churn lemma L6: every growth step the contract allows, with at most m live elements and additional = 1, lands on at most max(16, 5(m+1)) buckets, so along any insert/remove history buckets <= max(initial, that bound)',
                  paired={}),
     'arith': dict(props=['C17', 'C08', 'C12', 'C13'], tier='quick',
                   desc='capacity / layout / probe-step arithmetic on extracted text, and the probe-cycle theorem (triangular numbers are distinct modulo 2^g; k calls of move_next reach (start + W*k(k+1)/2) mod n; the first n/W positions are pairwise different and group-aligned), all inputs, all table sizes, both group widths',
